@@ -23,7 +23,7 @@ PATHS = ("law", "block", "block_valid", "stream", "read_dedisp", "dmt", "dmt_val
 
 
 def REQUIRED(tier):
-    return [f"path:{p}" for p in PATHS] + ["regime:negative_delays", "regime:foff>0", "regime:dm<0", "law_checks", "elements_compared"]
+    return [f"path:{p}" for p in PATHS] + ["regime:negative_delays", "regime:foff>0", "regime:dm<0", "law_checks", "elements_compared", "regime:multi_file_input"]
 
 
 def cases(tier, seed):
@@ -208,9 +208,19 @@ def _paths(case, j, ctx):
     d1 = delays_for(dm, "ch1")
     neg1 = bool(d1.min() < 0)
     regime1 = "negative-delays" if neg1 else "nonnegative-delays"
-    p = os.path.join(ctx.tmp, "c09.fil")
-    sigfile.write_fil(p, x.T, 32, fch1=fch1, foff=foff, tsamp=tsamp)
-    fil = FilReader(p)
+    frng = np.random.default_rng([case["seed"], j, 99])
+    if n >= 4 and frng.random() < 0.4:   # the same samples spread over two or three contiguous files
+        nf = int(frng.choice([2, 3]))
+        cuts = sorted(frng.choice(np.arange(1, n), size=nf - 1, replace=False).tolist())
+        dd = os.path.join(ctx.tmp, "c09in")
+        os.makedirs(dd, exist_ok=True)
+        pths = sigfile.write_split(dd, x.T, 32, [b - a for a, b in zip([0] + cuts, cuts + [n])], fch1=fch1, foff=foff, tsamp=tsamp)
+        fil = FilReader(pths, check_contiguity=False)  # MJD start times cannot resolve 10 us sampling; contiguity is not the subject here
+        ctx.count("regime:multi_file_input")
+    else:
+        p = os.path.join(ctx.tmp, "c09.fil")
+        sigfile.write_fil(p, x.T, 32, fch1=fch1, foff=foff, tsamp=tsamp)
+        fil = FilReader(p)
     if np.max(np.abs(d1)) < n:
         ctx.evaluated(); ctx.count("path:stream")
         try:
